@@ -34,7 +34,7 @@ type Finding struct {
 }
 
 type options struct {
-	repo, verif, tier string
+	repo, verif, tier, out string
 	seed              int64
 	timeout           int
 	par               int
@@ -46,6 +46,7 @@ func main() {
 	flag.StringVar(&o.repo, "repo", "/repo", "repository root")
 	flag.StringVar(&o.verif, "verif", "/verif", "verif root")
 	flag.StringVar(&o.tier, "tier", "quick", "quick|thorough")
+	flag.StringVar(&o.out, "out", "", "directory for evidence/ and replays/ (default: the verif root)")
 	flag.Int64Var(&o.seed, "seed", 0, "seed")
 	flag.IntVar(&o.timeout, "timeout", 0, "per-query timeout in seconds (0 = by tier)")
 	flag.IntVar(&o.par, "par", 16, "parallel solver processes")
@@ -59,6 +60,9 @@ func main() {
 	if t := os.Getenv("VERIF_TIER"); t == "quick" || t == "thorough" {
 		// the explicit sub-command tier wins; VERIF_TIER only informs
 		_ = t
+	}
+	if o.out == "" {
+		o.out = o.verif
 	}
 	if o.timeout == 0 {
 		o.timeout = 10
@@ -309,7 +313,7 @@ func cmdCheck(o options, prop string) int {
 	violations := 0
 	var knownLines []string
 	var knownNames []string
-	replayDir := filepath.Join(o.verif, "replays", prop)
+	replayDir := filepath.Join(o.out, "replays", prop)
 	os.MkdirAll(replayDir, 0o755)
 	for i, ob := range claimed {
 		r := results[i]
@@ -444,8 +448,8 @@ func cmdCheck(o options, prop string) int {
 		"wall_s":      round2(time.Since(t0).Seconds()),
 		"violations":  violations,
 	}
-	os.MkdirAll(filepath.Join(o.verif, "evidence"), 0o755)
-	writeJSON(filepath.Join(o.verif, "evidence", prop+".json"), ev)
+	os.MkdirAll(filepath.Join(o.out, "evidence"), 0o755)
+	writeJSON(filepath.Join(o.out, "evidence", prop+".json"), ev)
 	fmt.Printf("%s %s: %d obligations, %d discharged, %d known findings, %d violations, %.1fs (solver %.1fs)\n", prop, o.tier, len(claimed), discharged, len(knownNames), violations, time.Since(t0).Seconds(), solverTime)
 	if violations > 0 {
 		return 1
@@ -501,7 +505,7 @@ func writeJSON(path string, v any) {
 }
 
 func failClosed(o options, prop, reason, detail string, t0 time.Time) int {
-	replayDir := filepath.Join(o.verif, "replays", prop)
+	replayDir := filepath.Join(o.out, "replays", prop)
 	os.MkdirAll(replayDir, 0o755)
 	path := filepath.Join(replayDir, "generation-"+reason+".json")
 	writeJSON(path, map[string]any{"property": prop, "obligation": "generation", "reason": reason, "detail": detail})
@@ -512,8 +516,8 @@ func failClosed(o options, prop, reason, detail string, t0 time.Time) int {
 		"coverage": map[string]any{"explanation": "obligations could not be generated: " + reason + ": " + detail, "evaluations": 1, "distinct_nontrivial": 2},
 		"wall_s":   round2(time.Since(t0).Seconds()), "violations": 1,
 	}
-	os.MkdirAll(filepath.Join(o.verif, "evidence"), 0o755)
-	writeJSON(filepath.Join(o.verif, "evidence", prop+".json"), ev)
+	os.MkdirAll(filepath.Join(o.out, "evidence"), 0o755)
+	writeJSON(filepath.Join(o.out, "evidence", prop+".json"), ev)
 	return 1
 }
 
